@@ -24,20 +24,22 @@ Lists == {"L1", "L2"}
 
 \* growth creates Null elements with new identities: the recorder reports them as "nul"; the model writes "nul" too
 Apply(e) ==
-  CASE e.op = "new"        -> vs' = [s \in Slots |-> NullV] /\ ls' = [x \in Lists |-> <<>>]
+  CASE e.op = "new"        -> vs' = [s \in Slots |-> NullV] /\ ls' = [x \in Lists |-> <<>>] /\ pads' = {} /\ mut' = {}
     [] e.op = "setscalar"  -> SetScalar(e.v, e.type, e.payload)
     [] e.op = "fromlist"   -> FromList(e.v, e.list)
-    [] e.op = "setbyindex" -> IF IsArr(e.v) THEN SetByIndex(e.v, e.i, e.e, "nul") ELSE UNCHANGED hvars
-    [] e.op = "setlength"  -> IF IsArr(e.v) THEN SetLength(e.v, e.n, "nul") ELSE UNCHANGED hvars
+    [] e.op = "setbyindex" -> IF IsArr(e.v) THEN SetByIndex(e.v, e.i, e.e) ELSE UNCHANGED hvars
+    [] e.op = "setlength"  -> IF IsArr(e.v) THEN SetLength(e.v, e.n) ELSE UNCHANGED hvars
+    [] e.op = "mutelem"    -> MutElem(e.v, e.i)
+    [] e.op = "setobject"  -> SetScalar(e.v, "Object", e.payload)
     [] e.op = "copy"       -> CopyTo(e.w, e.v)
     [] e.op = "clear"      -> ClearV(e.v)
     [] e.op = "listset"    -> ListSet(e.list, e.elems)
     [] e.op = "listput"    -> IF e.i < Len(ls[e.list]) THEN ListPut(e.list, e.i, e.e) ELSE UNCHANGED hvars
     [] OTHER               -> UNCHANGED hvars
 
-ObsFails(o, v2) ==    \* v2 = the slots after the operation
+ObsFails(o, v2, pp, mm) ==    \* v2, pp, mm = slots, growth elements and changed growth elements after the operation
      F(\A s \in Slots : o.vars[s][1] = v2[s][1], "a variant reports the wrong type")
-  \o F(\A s \in Slots : v2[s][1] = "Array" => o.vars[s][3] = v2[s][2],
+  \o F(\A s \in Slots : v2[s][1] = "Array" => o.vars[s][3] = [k \in 1 .. Len(v2[s][2]) |-> Seen(v2[s][2][k], pp, mm)],
        "an array variant does not hold exactly its own elements (a change to another variant or to the caller's list is visible, or growth did not fill with nulls)")
   \o F(\A s \in Slots : v2[s][1] \notin {"Array", "Null"} => o.vars[s][2] = v2[s][2], "a scalar variant does not return the value it was given")
 
@@ -72,8 +74,8 @@ Step ==
                         ELSE IF \E i, j \in 1 .. Len(e.obs.eq) : e.obs.eq[i][1] = e.obs.eq[j][2] /\ e.obs.eq[i][2] = e.obs.eq[j][1]
                                                                     /\ e.obs.eq[i][3] # e.obs.eq[j][3]
                              THEN "equality is not symmetric; " ELSE ""
-                 f == ObsFails(e.obs, vs') \o eqf
+                 f == ObsFails(e.obs, vs', pads', mut') \o eqf
              IN f = "" \/ PrintT("VERIF-FAIL " \o ToString(l) \o " " \o f)
-Spec == Init /\ [][Step]_<<l, vs, ls>>
+Spec == Init /\ [][Step]_<<l, vs, ls, pads, mut>>
 Accepted == TLCGet("stats").diameter - 1 = Len(Trace)
 =============================================================================
